@@ -47,9 +47,9 @@ def typ(t):
         s = "INTEGER" + named(t["named"])
         sp = t.get("spell", "plain")
         if sp == "zeroMax":
-            return s + " (0..MAX)"
+            return s + " (0..MAX%s)" % (",..." if t["ext"] else "")
         if sp == "minMax":
-            return s + " (MIN..MAX)"
+            return s + " (MIN..MAX%s)" % (",..." if t["ext"] else "")
         if not t["hasLb"] and not t["hasUb"]:
             return s
         return s + " (%s..%s%s)" % (t["lb"] if t["hasLb"] else "MIN", t["ub"] if t["hasUb"] else "MAX", ",..." if t["ext"] else "")
@@ -96,7 +96,8 @@ def definition(d):
     return "%s ::= %s%s" % (d["name"], tag(d["tag"]), typ(d["t"]))
 
 
-PREAMBLE = ["D1 ::= INTEGER (0..255)", "E1 ::= ENUMERATED { v1, v2, v3 }"]
+# v2 is also the name of a value reference: an identifier governed by an ENUMERATED type is an enumeration item first
+PREAMBLE = ["D1 ::= INTEGER (0..255)", "E1 ::= ENUMERATED { v1, v2, v3 }", "v2 INTEGER ::= 3"]
 
 
 def module(name, defs, header="DEFINITIONS AUTOMATIC TAGS ::="):
